@@ -243,6 +243,10 @@ class Evaluator:
                 if isinstance(v, ast.FormattedValue):
                     self._eval(v.value, env)
             return "<fstring>"
+        if isinstance(e, ast.NamedExpr) and isinstance(e.target, ast.Name):
+            v = self._eval(e.value, env)
+            env[e.target.id] = v
+            return v
         if isinstance(e, (ast.Tuple, ast.List)):
             vals = []
             for x in e.elts:
@@ -496,7 +500,15 @@ class Evaluator:
             raise Licence(f"{self.f.loc(e)}: len of abstract value {args[0]!r}")
         if q == "enumerate" and args:
             return list(enumerate(args[0], *args[1:2]))
+        if q in ("itertools.count", "count") and len(args) <= 1 and all(isinstance(a, int) and not isinstance(a, bool) for a in args):
+            return ("<count>", args[0] if args else 0)
         if q == "zip":
+            finite = [a for a in args if not (isinstance(a, tuple) and len(a) == 2 and a[0] == "<count>")]
+            if len(finite) != len(args):
+                if not finite or not all(isinstance(a, (list, tuple, range)) for a in finite):
+                    raise Licence(f"{self.f.loc(e)}: zip over itertools.count() without a finite abstract sequence")
+                nmin = min(len(a) for a in finite)
+                args = [list(range(a[1], a[1] + nmin)) if (isinstance(a, tuple) and len(a) == 2 and a[0] == "<count>") else a for a in args]
             return list(zip(*args))
         if q == "range":
             return list(range(*args))
